@@ -1,11 +1,14 @@
 //! C13 — casts preserve representable values; strict/safe modes agree; text round-trips.
 //!
 //! Sub-checks
-//!  1. `matrix`            support matrix over a finite type grid T x T (exhaustive over ordered pairs)
-//!  2. `duality` / `duality_exhaustive`  strict/safe duality against exact reference conversions
-//!  3. `inverse`           lossless cast followed by its inverse is the identity
-//!  4. `text`              format (cast to Utf8 / ArrayFormatter) then parse (cast back) is the identity
-//!  5. `datatype`          DataType Display -> FromStr identity (+ `datatype_known_shapes`: reproduction of F5)
+//!  1. `census`, `matrix`  support matrix over a finite type grid T x T (every ordered pair, several columns per pair)
+//!  2. `duality_exhaustive`, `duality`  strict/safe duality against exact reference conversions (bigint arithmetic)
+//!  3. `inverse`           a lossless cast followed by its inverse is the identity
+//!  4. `text`              format (cast to Utf8 = ArrayFormatter) then parse (cast back) is the identity;
+//!     `text_cross`        the text of a number parsed as another numeric type agrees with the reference conversion
+//!  5. `datatype`          DataType Display -> FromStr identity
+//!  `datatype_known_shapes`, `cast_known_shapes`: reproductions of the defects the generators avoid by construction
+//!  (F5, F5b, C13f7..C13f22, see notes/c13_proposed_known_findings.json); they have no generated cases and run through the known-findings replay only.
 use arrow_array::{Array, ArrayRef};
 use arrow_cast::display::{ArrayFormatter, FormatOptions};
 use arrow_cast::{can_cast_types, cast_with_options, CastOptions};
@@ -269,10 +272,10 @@ fn routed_leaf(t: &LType) -> &LType {
 fn matrix_known_pair(a: &LType, b: &LType) -> Option<&'static str> {
     use LType::*;
     match (routed_leaf(a), routed_leaf(b)) {
-        (IntervalYM | IntervalDT, Int { bits: 64, signed: true }) if matches!(a, IntervalYM | IntervalDT) => Some("F13-interval-to-int64-unsupported"),
-        (Utf8(_), Decimal { s, .. }) if *s < 0 => Some("F14-utf8-to-negative-scale-decimal-rejected"),
+        (IntervalYM | IntervalDT, Int { bits: 64, signed: true }) if matches!(a, IntervalYM | IntervalDT) => Some("C13f13-interval-to-int64-unsupported"),
+        (Utf8(_), Decimal { s, .. }) if *s < 0 => Some("C13f14-utf8-to-negative-scale-decimal-rejected"),
         _ => match (a, b) {
-            (FixedList(..), List(f, _)) if !f.nullable => Some("F11-fixedsizelist-to-nonnull-list-invalid-output"),
+            (FixedList(..), List(f, _)) if !f.nullable => Some("C13f11-fixedsizelist-to-nonnull-list-invalid-output"),
             _ => None,
         },
     }
@@ -286,6 +289,27 @@ fn has_unreferenced_storage(t: &LType) -> bool {
 fn is_listlike(t: &LType) -> bool {
     matches!(t, LType::List(..) | LType::FixedList(..))
 }
+/// number of ordered grid pairs accepted by `can_cast_types` on the reviewed tree: support must not shrink silently
+/// (a pair that is dropped from `can_cast_types` would otherwise just move to the "uncastable" class)
+const CASTABLE_PAIRS: usize = 3840;
+
+fn sub_census(c: &mut Case) -> CaseResult {
+    let g = grid();
+    let mut n = 0usize;
+    for a in &g {
+        for b in &g {
+            if can_cast_types(&a.arrow(), &b.arrow()) {
+                n += 1;
+            }
+        }
+    }
+    c.describe(json!({"grid": g.len(), "castable_pairs": n}));
+    c.evals((g.len() * g.len()) as u64);
+    c.nontrivial();
+    ensure!(n >= CASTABLE_PAIRS, "matrix:castable-census", "can_cast_types accepts {} ordered pairs of the grid, {} when the grid was reviewed", n, CASTABLE_PAIRS);
+    Ok(())
+}
+
 fn sub_matrix(c: &mut Case) -> CaseResult {
     let g = grid();
     let n = g.len();
@@ -330,28 +354,33 @@ fn sub_matrix(c: &mut Case) -> CaseResult {
     // ---- known defect shapes are avoided by construction (disabled when replaying)
     let mut lay_safe = Lay::fancy();
     let mut lay_strict = Lay::fancy();
-    if !c.strict && std::env::var("C13_NOEXCL").is_err() {
+    let mut zero_payload = false;
+    if !c.strict {
         if let Some(key) = matrix_known_pair(ta, tb) {
             c.exclude(key);
             c.class("excluded-known-pair");
             return Ok(());
         }
         if ta != tb && has_unreferenced_storage(ta) {
-            c.exclude("F9-strict-cast-converts-unreferenced-storage");
+            c.exclude("C13f9-strict-cast-converts-unreferenced-storage");
             lay_strict = Lay::plain();
         }
         if ta != tb && ta.any(&|x| is_dec(x)) && tb.any(&|x| is_dec(x)) {
-            c.exclude("F10-decimal-rescale-panics-on-null-slot-payload");
-            lay_safe = Lay::plain();
-            lay_strict = Lay::plain();
+            c.exclude("C13f10-decimal-rescale-panics-on-null-slot-payload");
+            if is_dec(ta) {
+                zero_payload = true;
+            } else {
+                lay_safe = Lay::plain();
+                lay_strict = Lay::plain();
+            }
         }
         if is_listlike(ta) && matches!(tb, LType::FixedList(..)) && ta != tb {
-            c.exclude("F12-list-to-fixedsizelist-ignores-offsets");
+            c.exclude("C13f12-list-to-fixedsizelist-ignores-offsets");
             lay_safe = Lay::plain();
             lay_strict = Lay::plain();
         }
         if matches!(ta, LType::FixedList(_, 1)) && !is_listlike(tb) {
-            c.exclude("F15-fixedsizelist1-to-values-drops-list-nulls");
+            c.exclude("C13f15-fixedsizelist1-to-values-drops-list-nulls");
             lay_safe = Lay::plain();
             lay_strict = Lay::plain();
         }
@@ -362,6 +391,7 @@ fn sub_matrix(c: &mut Case) -> CaseResult {
     let mut saw_ok_values = false;
     for (kind, col) in &cols {
         let arr_safe = no_panic("realise", || realise(&mut c.tape, ta, col, true, &lay_safe))?;
+        let arr_safe = if zero_payload { zero_null_payload(&arr_safe) } else { arr_safe };
         let arr_strict = if same_layout { arr_safe.clone() } else { no_panic("realise", || realise(&mut c.tape, ta, col, true, &lay_strict))? };
         let mut outs: Vec<Option<Vec<LValue>>> = vec![];
         for safe in [true, false] {
@@ -765,7 +795,7 @@ fn gen_duality_column(t: &mut Tape, a: &LType, b: &LType, len: usize, strict: bo
             cands.retain(|v| matches!(v, LValue::Int(x) if *x >= lo && *x <= hi));
         }
     }
-    // F16: i256::to_i64 wraps for values outside the i64 range; keep Decimal256 -> signed integer quotients inside it
+    // C13f16: i256::to_i64 wraps for values outside the i64 range; keep Decimal256 -> signed integer quotients inside it
     let f16_lim: Option<BigInt> = match (a, b) {
         (LType::Decimal { width: 256, s, .. }, LType::Int { signed: true, .. }) if !strict && *s >= 0 => Some((BigInt::from(i64::MAX) + 1) * pow10(*s as u32) - 1),
         _ => None,
@@ -792,10 +822,11 @@ fn gen_duality_column(t: &mut Tape, a: &LType, b: &LType, len: usize, strict: bo
 }
 
 /// the duality oracle for one input column
-fn check_duality(c: &mut Case, a: &LType, b: &LType, col: &[LValue], lay: &Lay) -> CaseResult {
+fn check_duality(c: &mut Case, a: &LType, b: &LType, col: &[LValue], lay: &Lay, zero_payload: bool) -> CaseResult {
     let (da, db) = (a.arrow(), b.arrow());
     ensure!(can_cast_types(&da, &db), "duality:can-cast", "can_cast_types({}, {}) is false for a pair of the numeric/temporal families", da, db);
     let arr = no_panic("realise", || realise(&mut c.tape, a, col, true, lay))?;
+    let arr = if zero_payload { zero_null_payload(&arr) } else { arr };
     let expect: Vec<Option<LValue>> = col
         .iter()
         .map(|v| {
@@ -851,6 +882,27 @@ fn check_duality(c: &mut Case, a: &LType, b: &LType, col: &[LValue], lay: &Lay) 
     Ok(())
 }
 
+/// F10 avoidance that keeps the layout variation: same logical column and validity bitmap, zero payload under null slots
+fn zero_null_payload(arr: &ArrayRef) -> ArrayRef {
+    use arrow_array::cast::AsArray;
+    use arrow_array::types::*;
+    use arrow_array::PrimitiveArray;
+    macro_rules! z {
+        ($T:ty, $p:expr, $s:expr) => {{
+            let a = arr.as_primitive::<$T>();
+            let vals: Vec<<$T as arrow_array::ArrowPrimitiveType>::Native> = (0..a.len()).map(|i| if a.is_null(i) { Default::default() } else { a.value(i) }).collect();
+            Arc::new(PrimitiveArray::<$T>::new(vals.into(), a.nulls().cloned()).with_precision_and_scale(*$p, *$s).unwrap()) as ArrayRef
+        }};
+    }
+    match arr.data_type() {
+        DataType::Decimal32(p, s) => z!(Decimal32Type, p, s),
+        DataType::Decimal64(p, s) => z!(Decimal64Type, p, s),
+        DataType::Decimal128(p, s) => z!(Decimal128Type, p, s),
+        DataType::Decimal256(p, s) => z!(Decimal256Type, p, s),
+        _ => arr.clone(),
+    }
+}
+
 fn some_decimal(t: &mut Tape) -> LType {
     gen_decimal(t, &TypeCfg::all())
 }
@@ -872,9 +924,9 @@ fn known_shape(a: &LType, b: &LType) -> Option<&'static str> {
     use LType::*;
     match (a, b) {
         // decimal with negative scale -> integer multiplies in the decimal's native width
-        (Decimal { s, .. }, Int { .. }) if *s < 0 => Some("F7-negscale-decimal-to-int-native-overflow"),
+        (Decimal { s, .. }, Int { .. }) if *s < 0 => Some("C13f7-negscale-decimal-to-int-native-overflow"),
         // Date64 -> Timestamp(us|ns) multiplies unchecked
-        (Date64, Timestamp(Unit::Us | Unit::Ns, _)) => Some("F8-date64-to-timestamp-unchecked-mul"),
+        (Date64, Timestamp(Unit::Us | Unit::Ns, _)) => Some("C13f8-date64-to-timestamp-unchecked-mul"),
         _ => None,
     }
 }
@@ -924,7 +976,8 @@ fn gen_duality_pair(t: &mut Tape) -> (LType, LType, &'static str) {
 
 fn sub_duality(c: &mut Case) -> CaseResult {
     let (mut a, mut b, fam) = gen_duality_pair(&mut c.tape);
-    let mut lay = Lay::fancy();
+    let lay = Lay::fancy();
+    let mut zero_payload = false;
     if !c.strict {
         if let Some(key) = known_shape(&a, &b) {
             c.exclude(key);
@@ -936,24 +989,26 @@ fn sub_duality(c: &mut Case) -> CaseResult {
             }
         }
         if let (LType::Decimal { p: p1, s: s1, .. }, LType::Decimal { s: s2, .. }) = (&a, &mut b) {
-            // F17: `input_precision as i8 + delta_scale` overflows i8 and the cast is taken for infallible
+            // C13f17: `input_precision as i8 + delta_scale` overflows i8 and the cast is taken for infallible
             if *p1 as i32 + (*s2 as i32 - *s1 as i32) > 127 {
-                c.exclude("F17-decimal-upscale-i8-overflow-taken-as-infallible");
+                c.exclude("C13f17-decimal-upscale-i8-overflow-taken-as-infallible");
                 *s2 = (*s1 as i32 + 127 - *p1 as i32) as i8;
             }
-            // F10: the infallible rescale paths unwrap on the payload of null slots
-            c.exclude("F10-decimal-rescale-panics-on-null-slot-payload");
-            lay = Lay::plain();
+            // C13f10: the infallible rescale paths unwrap on the payload of null slots
+            zero_payload = true;
         }
         if matches!((&a, &b), (LType::Decimal { width: 256, .. }, LType::Int { signed: true, .. })) {
-            c.exclude("F16-i256-to-i64-wraps");
+            c.exclude("C13f16-i256-to-i64-wraps");
         }
     }
     c.class(fam);
     let len = c.tape.len(24, 90);
     let col = gen_duality_column(&mut c.tape, &a, &b, len, c.strict);
     c.describe(json!({"from": a.arrow().to_string(), "to": b.arrow().to_string(), "column": short_vec(&col)}));
-    check_duality(c, &a, &b, &col, &lay)
+    if zero_payload && col.iter().any(|v| v.is_null()) {
+        c.exclude("C13f10-decimal-rescale-panics-on-null-slot-payload");
+    }
+    check_duality(c, &a, &b, &col, &lay, zero_payload)
 }
 
 /// sources enumerated exhaustively over all of their values
@@ -1000,7 +1055,7 @@ fn sub_duality_exhaustive(c: &mut Case) -> CaseResult {
     };
     c.class(format!("all-values:{}", a.arrow()));
     c.describe(json!({"from": a.arrow().to_string(), "to": b.arrow().to_string(), "rows": col.len()}));
-    check_duality(c, a, b, &col, &Lay::plain())?;
+    check_duality(c, a, b, &col, &Lay::plain(), false)?;
     c.evals(col.len() as u64);
     Ok(())
 }
@@ -1260,6 +1315,16 @@ fn clamp_for_inverse(a: &LType, b: &LType, v: LValue) -> LValue {
     }
 }
 
+/// value types `cast_to_dictionary` can pack
+fn dict_packable(t: &LType) -> bool {
+    use LType::*;
+    matches!(t, Int { .. } | F16 | F32 | F64 | Decimal { .. } | Date32 | Date64 | Time32(_) | Time64(_) | Timestamp(..) | Utf8(_) | Binary(_) | FixedBinary(_))
+}
+fn is_temporal(t: &LType) -> bool {
+    use LType::*;
+    matches!(t, Date32 | Date64 | Time32(_) | Time64(_) | Timestamp(..) | Duration(_))
+}
+
 fn sub_inverse(c: &mut Case) -> CaseResult {
     let mut cfg = TypeCfg::all();
     cfg.depth = 2;
@@ -1272,11 +1337,51 @@ fn sub_inverse(c: &mut Case) -> CaseResult {
     let a = gen_type(&mut c.tape, &cfg);
     let mut tags: Vec<&'static str> = vec![];
     let b0 = lossless_target(&mut c.tape, &a, 0, &mut tags);
-    let b = maybe_encode(&mut c.tape, b0, &mut tags);
+    let mut b = maybe_encode(&mut c.tape, b0.clone(), &mut tags);
+    let mut lay = Lay::fancy();
+    let safe = c.tape.bool();
+    if !c.strict {
+        // C13f18: packing into a dictionary with a temporal value type skips the unit conversion
+        if let LType::Dict { value, .. } = &b {
+            if is_temporal(value) && a.denoted() != &**value {
+                c.exclude("C13f18-cast-to-temporal-dictionary-skips-unit-conversion");
+                tags.retain(|t| *t != "pack-dict");
+                b = b0.clone();
+            }
+        }
+        // C13f19: can_cast_types(T, Dictionary(K, T)) holds for every T but only some value types can be packed
+        let unpackable = |t: &LType| t.any(&|x| matches!(x, LType::Dict { value, .. } if !dict_packable(value)));
+        if unpackable(&a) || unpackable(&b) {
+            c.exclude("C13f19-dictionary-packing-unsupported-value-type");
+            c.class("excluded-known-shape");
+            return Ok(());
+        }
+        // C13f20: FixedSizeList(0 x T) loses its length when the child type is cast
+        if a.any(&|x| matches!(x, LType::FixedList(_, 0))) {
+            c.exclude("C13f20-fixedsizelist0-cast-loses-length");
+            c.class("excluded-known-shape");
+            return Ok(());
+        }
+        // C13f12: list -> FixedSizeList ignores the offsets of the source
+        if a.any(&|x| matches!(x, LType::FixedList(..))) {
+            c.exclude("C13f12-list-to-fixedsizelist-ignores-offsets");
+            lay = Lay::plain();
+        }
+        if a.any(&|x| is_dec(x)) {
+            c.exclude("C13f10-decimal-rescale-panics-on-null-slot-payload");
+            lay = Lay::plain();
+        }
+        // (in safe mode the converted garbage becomes null, which a non-nullable child field then rejects)
+        let value_sensitive = tags.iter().any(|t| matches!(*t, "temporal-finer" | "decimal-upscale"));
+        if (!safe || value_sensitive) && (has_unreferenced_storage(&a) || has_unreferenced_storage(&b)) {
+            c.exclude("C13f9-strict-cast-converts-unreferenced-storage");
+            lay = Lay::plain();
+        }
+    }
     let (da, db) = (a.arrow(), b.arrow());
     let len = c.tape.len(12, 40);
     let col: Vec<LValue> = gen_column(&mut c.tape, &a, true, len, &ValCfg::default()).into_iter().map(|v| clamp_for_inverse(&a, &b, v)).collect();
-    c.describe(json!({"a": da.to_string(), "b": db.to_string(), "tags": tags, "column": short_vec(&col)}));
+    c.describe(json!({"a": da.to_string(), "b": db.to_string(), "tags": tags, "safe": safe, "column": short_vec(&col)}));
     if a == b {
         c.class("identity");
     }
@@ -1288,8 +1393,7 @@ fn sub_inverse(c: &mut Case) -> CaseResult {
         c.class(*tg);
     }
     c.class(format!("a:{}", a.family()));
-    let arr = no_panic("realise", || realise(&mut c.tape, &a, &col, true, &Lay::fancy()))?;
-    let safe = c.tape.bool();
+    let arr = no_panic("realise", || realise(&mut c.tape, &a, &col, true, &lay))?;
     let fwd = match do_cast("cast(a->b)", arr.as_ref(), &db, safe)? {
         Ok(x) => x,
         Err(e) => fail!("inverse:forward-err", "lossless cast {} -> {} (safe={}) failed: {} ; column {}", da, db, safe, e, short_vec(&col)),
@@ -1350,7 +1454,7 @@ fn gen_text_type(t: &mut Tape) -> LType {
 }
 
 /// values over the full range the textual form can express
-fn gen_text_value(t: &mut Tape, ty: &LType, extreme: &mut bool) -> LValue {
+fn gen_text_value(t: &mut Tape, ty: &LType, extreme: &mut bool, strict: bool, excluded: &mut bool) -> LValue {
     use LType::*;
     let cfg = ValCfg::default(); // years 0001-9999 in the displayed zone, decimals within precision
     match ty {
@@ -1386,7 +1490,15 @@ fn gen_text_value(t: &mut Tape, ty: &LType, extreme: &mut bool) -> LValue {
             }
             LValue::Int(v)
         }
-        IntervalYM | IntervalDT | IntervalMDN => gen_nonnull(t, ty, &cfg),
+        IntervalYM => match gen_nonnull(t, ty, &cfg) {
+            // C13f21: the eight smallest values print as "-178956971 years N mons", which the parser cannot take
+            LValue::Int(m) if !strict && m < i32::MIN as i128 + 8 => {
+                *excluded = true;
+                LValue::Int(i32::MIN as i128 + 8)
+            }
+            v => v,
+        },
+        IntervalDT | IntervalMDN => gen_nonnull(t, ty, &cfg),
         _ => {
             let v = gen_nonnull(t, ty, &cfg);
             let ext = match (ty, &v) {
@@ -1417,7 +1529,12 @@ fn sub_text(c: &mut Case) -> CaseResult {
     let (dt, dc) = (ty.arrow(), carrier.arrow());
     let len = c.tape.len(16, 60);
     let mut extreme = false;
-    let col: Vec<LValue> = (0..len).map(|_| if c.tape.chance(30) { LValue::Null } else { gen_text_value(&mut c.tape, &ty, &mut extreme) }).collect();
+    let mut excluded = false;
+    let strict_mode = c.strict;
+    let col: Vec<LValue> = (0..len).map(|_| if c.tape.chance(30) { LValue::Null } else { gen_text_value(&mut c.tape, &ty, &mut extreme, strict_mode, &mut excluded) }).collect();
+    if excluded {
+        c.exclude("C13f21-interval-yearmonth-min-text-not-parseable");
+    }
     c.describe(json!({"type": dt.to_string(), "carrier": dc.to_string(), "column": short_vec(&col)}));
     if !(can_cast_types(&dt, &dc) && can_cast_types(&dc, &dt)) {
         c.class("skipped:not-castable-both-ways");
@@ -1474,6 +1591,88 @@ fn sub_text(c: &mut Case) -> CaseResult {
     if extreme {
         c.nontrivial();
         c.class("extreme-value");
+    }
+    Ok(())
+}
+
+/// 4b. the text of a value parsed as a *different* numeric type: the parse must agree with the direct cast semantics
+/// (integer range checks; string -> decimal documented to round half away from zero at the target scale)
+fn sub_text_cross(c: &mut Case) -> CaseResult {
+    use LType::*;
+    let pos_dec = |t: &mut Tape| {
+        let mut cfg = TypeCfg::all();
+        cfg.neg_scale = false;
+        gen_decimal(t, &cfg)
+    };
+    let (a, b, fam) = match c.tape.below(6) {
+        0 => (some_int(&mut c.tape), some_int(&mut c.tape), "int-text->int"),
+        1 => (some_int(&mut c.tape), pos_dec(&mut c.tape), "int-text->decimal"),
+        2 => (some_int(&mut c.tape), c.tape.pick(&[F64, F32]).clone(), "int-text->float"),
+        _ => {
+            let a = pos_dec(&mut c.tape);
+            let mut b = pos_dec(&mut c.tape);
+            if !ref_supported(&a, &b) {
+                b = a.clone();
+            }
+            (a, b, "decimal-text->decimal")
+        }
+    };
+    let carrier = Utf8(*c.tape.pick(&[Enc::O32, Enc::O64, Enc::View]));
+    let (da, db, dc) = (a.arrow(), b.arrow(), carrier.arrow());
+    c.class(fam);
+    let len = c.tape.len(16, 60);
+    let mut col = gen_duality_column(&mut c.tape, &a, &b, len, c.strict);
+    if !c.strict && b == int(16, true) {
+        // C13f22: atoi 3.1.0 treats five digits of a negative i16 as overflow-free: "-32769".."-99999" wrap
+        let mut hit = false;
+        for v in col.iter_mut() {
+            if let LValue::Int(x) = v {
+                if (-99_999..=-32_769).contains(x) {
+                    *x = -100_000 - (*x).rem_euclid(1000);
+                    hit = true;
+                }
+            }
+        }
+        if hit {
+            c.exclude("C13f22-atoi-i16-negative-five-digit-wrap");
+        }
+    }
+    c.describe(json!({"from": da.to_string(), "via": dc.to_string(), "to": db.to_string(), "column": short_vec(&col)}));
+    ensure!(can_cast_types(&da, &dc) && can_cast_types(&dc, &db), "textcross:can-cast", "can_cast_types({} -> {} -> {}) is false", da, dc, db);
+    let arr = no_panic("realise", || realise(&mut c.tape, &a, &col, true, &Lay::fancy()))?;
+    let text = match do_cast("cast(->text)", arr.as_ref(), &dc, false)? {
+        Ok(t) => t,
+        Err(e) => fail!("textcross:format-err", "formatting {} as {} failed: {}", da, dc, e),
+    };
+    let expect: Vec<Option<LValue>> = col.iter().map(|v| if v.is_null() { Some(LValue::Null) } else { match ref_cast(&a, &b, v) { R::V(x) => Some(x), R::No => None } }).collect();
+    let n_no = expect.iter().filter(|e| e.is_none()).count();
+    let n_yes = expect.iter().filter(|e| matches!(e, Some(v) if !v.is_null())).count();
+    let want: Vec<LValue> = expect.iter().map(|e| e.clone().unwrap_or(LValue::Null)).collect();
+    let strict = do_cast("cast(text->, strict)", text.as_ref(), &db, false)?;
+    let safe = do_cast("cast(text->, safe)", text.as_ref(), &db, true)?;
+    c.evals(2);
+    let texts = extract(text.as_ref());
+    match (&strict, expect.iter().position(|e| e.is_none())) {
+        (Ok(_), Some(i)) => fail!("textcross:strict-ok-on-unrepresentable", "parsing {:?} (text of {} {:?}) as {} safe=false succeeded although it is not representable", texts.get(i), da, col[i], db),
+        (Err(e), None) => fail!("textcross:strict-err-on-representable", "parsing the text of {} as {} safe=false failed ({}) although every value is representable; texts {}", da, db, e, short_vec(&texts)),
+        _ => {}
+    }
+    let safe = match safe {
+        Ok(s) => s,
+        Err(e) => fail!("textcross:safe-err", "parsing the text of {} as {} safe=true failed: {}", da, db, e),
+    };
+    for (mode, out) in [("safe", Some(&safe)), ("strict", strict.as_ref().ok())] {
+        let Some(out) = out else { continue };
+        ensure!(out.data_type() == &db, "textcross:result-type", "cast {} -> {} returned type {}", dc, db, out.data_type());
+        check_valid(out.as_ref(), "cast")?;
+        let got = extract(out.as_ref());
+        if let Some(i) = first_diff_nan(&got, &want) {
+            fail!("textcross:value", "text {:?} of {} {:?} parsed as {} ({}) gives {:?}, reference {:?}", texts.get(i), da, col.get(i), db, mode, got.get(i), want.get(i));
+        }
+    }
+    if n_no > 0 && n_yes > 0 {
+        c.nontrivial();
+        c.class("both-sides-of-limit");
     }
     Ok(())
 }
@@ -1618,7 +1817,7 @@ fn sub_datatype(c: &mut Case) -> CaseResult {
 
 /// reproduction of the known non-invertible shapes (only run through the known-findings replay: no generated cases)
 fn sub_datatype_known_shapes(c: &mut Case) -> CaseResult {
-    let k = c.tape.below(6);
+    let k = c.tape.u8();
     let (dt, escaped, empty) = match k {
         0 => (DataType::Struct(Fields::from(vec![Field::new("a\"b", DataType::Int32, true)])), true, false),
         1 => (DataType::Struct(Fields::from(vec![Field::new("a\\b", DataType::Int32, true)])), true, false),
@@ -1638,7 +1837,7 @@ fn sub_cast_known_shapes(c: &mut Case) -> CaseResult {
 
     use arrow_array::*;
     use arrow_buffer::{Buffer, NullBuffer, OffsetBuffer, ScalarBuffer};
-    let k = c.tape.below(12);
+    let k = c.tape.u8();
     let strict = |a: &dyn Array, to: &DataType| do_cast("cast", a, to, false);
     let safe = |a: &dyn Array, to: &DataType| do_cast("cast", a, to, true);
     let want = |sig: &'static str, what: &str, r: Result<ArrayRef, ArrowError>, exp: Vec<LValue>| -> CaseResult {
@@ -1729,21 +1928,39 @@ fn sub_cast_known_shapes(c: &mut Case) -> CaseResult {
             }
             want("known:decimal-upscale-i8-overflow", "Decimal256(76,0) [10^30] -> Decimal256(76,52) (safe)", safe(&a, &to)?, vec![LValue::Null])
         }
+        12 => {
+            let a = Date64Array::from(vec![86_400_000i64]);
+            let to = DataType::Dictionary(Box::new(DataType::Int32), Box::new(ts(Unit::Us, None).arrow()));
+            want("known:cast-to-temporal-dictionary-skips-conversion", "Date64 [1970-01-02] -> Dictionary(Int32, Timestamp(us))", safe(&a, &to)?, vec![LValue::Int(86_400_000_000)])
+        }
+        13 => {
+            let a = DurationSecondArray::from(vec![1i64]);
+            let to = DataType::Dictionary(Box::new(DataType::Int32), Box::new(a.data_type().clone()));
+            ensure!(can_cast_types(a.data_type(), &to), "known:precondition", "can_cast_types(Duration(s), Dictionary(Int32, Duration(s))) is now false");
+            want("known:dictionary-packing-unsupported", "Duration(s) [1] -> Dictionary(Int32, Duration(s))", safe(&a, &to)?, vec![LValue::Int(1)])
+        }
+        14 => {
+            let f = |dt: DataType| Arc::new(Field::new("item", dt, true));
+            let a = FixedSizeListArray::try_new_with_length(f(DataType::Int32), 0, Arc::new(Int32Array::from(Vec::<i32>::new())), None, 3).unwrap();
+            let to = DataType::FixedSizeList(f(DataType::Int64), 0);
+            want("known:fixedsizelist0-cast-loses-length", "FixedSizeList(0 x Int32) with 3 rows -> FixedSizeList(0 x Int64)", safe(&a, &to)?, vec![LValue::List(vec![]); 3])
+        }
+        15 => {
+            let a = IntervalYearMonthArray::from(vec![i32::MIN]);
+            let text = match safe(&a, &DataType::Utf8)? {
+                Ok(t) => t,
+                Err(e) => return Err(Fail::new("known:interval-yearmonth-min-text", format!("formatting failed: {}", e))),
+            };
+            want("known:interval-yearmonth-min-text", &format!("Interval(YearMonth) [i32::MIN] -> Utf8 {} -> Interval(YearMonth)", short_vec(&extract(text.as_ref()))), strict(text.as_ref(), a.data_type())?, vec![LValue::Int(i32::MIN as i128)])
+        }
+        16 => {
+            let a = StringArray::from(vec!["-32769", "-40000", "-32768"]);
+            want("known:utf8-to-int16-negative-wrap", "Utf8 [\"-32769\", \"-40000\", \"-32768\"] -> Int16 (safe)", safe(&a, &DataType::Int16)?, vec![LValue::Null, LValue::Null, LValue::Int(-32768)])
+        }
         _ => {
             let a = BinaryArray::try_new(OffsetBuffer::new(ScalarBuffer::from(vec![1i32, 2])), Buffer::from_vec(vec![0xffu8, b'a']), None).unwrap();
             want("known:strict-unreferenced-bytes", "Binary [\"a\"] (invalid byte before the first offset) -> Utf8 (strict)", strict(&a, &DataType::Utf8)?, vec![LValue::Str("a".into())])
         }
-    }
-}
-
-/// development aid: with C13_SURVEY set, failures are printed and the run continues
-fn survey(f: fn(&mut Case) -> CaseResult) -> impl Fn(&mut Case) -> CaseResult + Sync + 'static {
-    move |c: &mut Case| match f(c) {
-        Err(e) if std::env::var("C13_SURVEY").is_ok() => {
-            eprintln!("SURVEY [{}] {} || case {}", e.sig, e.msg, c.desc);
-            Ok(())
-        }
-        r => r,
     }
 }
 
@@ -1752,20 +1969,24 @@ fn main() {
     Check::new(
         "C13",
         "exploration",
-        "cases = (ordered type pair of an 88-type grid | numeric/temporal pair with an exact reference | lossless pair | text-capable type | nested DataType) x generated columns (empty, all-null, range limits of the target, rounding ties, random; realised with layout variation) x safe in {true,false}. Non-trivial = a != b and the column has a value on each side of b's representability limit (strict fails or safe adds nulls while other rows convert), or a text round trip of an extreme value (range limit, negative epoch, subnormal/non-finite float, max-precision decimal), or a lossless pair with >= 3 valid rows, or a nested DataType with generated names/parameters. Distinct = distinct consumed entropy tape.",
+        "cases = (ordered type pair of an 84-type grid | numeric/temporal pair with an exact reference | lossless pair | text-capable type | nested DataType) x generated columns (empty, all-null, range limits of the target, rounding ties, random; realised with layout variation) x safe in {true,false}. Non-trivial = a != b and the column has a value on each side of b's representability limit (strict fails or safe adds nulls while other rows convert), or a text round trip of an extreme value (range limit, negative epoch, subnormal/non-finite float, max-precision decimal), or a lossless pair with >= 3 valid rows, or a nested DataType with generated names/parameters. Distinct = distinct consumed entropy tape.",
     )
     .assume("can_cast_types true does not promise success for values: value errors (overflow, parse, invalid utf-8, wrong list length, struct nullability) are accepted in `matrix`; only 'not supported'-style errors, and any error on an empty or all-null column, are violations")
     .assume("duality only for pairs with an exact reference: int<->int, int<->float, float->int (NumCast: truncate toward zero then range check; NaN/inf unrepresentable), f16/f32 widening, f64->f32, f32->f16 (f64->f16 skipped: double rounding unspecified), bool<->int/float, int->decimal (negative scale: truncating division as implemented), decimal->int (truncation toward zero), decimal->decimal (half away from zero, precision check; upscale by more than the target's max precision is rejected for the whole array and skipped), float->decimal for 0<=scale<=22 ((10^s*x).round() then precision check), timestamp<->timestamp and duration<->duration (multiply checked / truncating division; None->tz re-interprets local time per the cast_with_options docs), date32<->date64, date->timestamp, timestamp->date")
     .assume("decimal inputs lie within their declared precision (arrow kernels document precision as a value-level precondition); timezone re-interpretation and timestamp->Date32 only for calendar years 0001-9999; Time values within a day")
     .assume("decimal->float is documented lossy and is not compared; lossless pairs are constructed (widening ints, exact int->float, int->decimal with room, decimal upscale with room, string/binary/list re-encodings, dictionary/run-end packing and unpacking, temporal to finer unit with values clamped below the overflow limit, same timezone on both sides)")
     .assume("text round trip uses default FormatOptions; types castable to Utf8 but not back (Duration, Binary as hex, nested) are skipped by can_cast_types in both directions; Utf8 -> Decimal with negative scale is rejected by the kernel (reported) so text decimals have scale >= 0; timestamps/dates restricted to years 0001-9999 in the displayed zone")
+    .assume("text_cross: the text of an integer/decimal parsed as another integer width, a float or a decimal with scale >= 0 is judged by the int->int, int->float, int->decimal and decimal->decimal references (string->decimal is documented to round half away from zero; unparseable/overflowing strings give null or error)")
+    .assume("known defects avoided by construction (each counted under excluded_by_known_finding and reproduced by *_known_shapes): unreferenced child storage converted by strict casts (plain layout used instead), decimal rescale panic on null-slot payload (payload zeroed), List->FixedSizeList ignoring offsets, FixedSizeList(1)->values dropping list nulls, FixedSizeList->List(non-null) invalid output, Interval->Int64 and Utf8->Decimal(negative scale) and Dictionary packing of unsupported value types accepted by can_cast_types, Decimal(negative scale)->int native overflow, Date64->Timestamp(us|ns) unchecked multiply, i256::to_i64 wrap, Decimal256 upscale i8 overflow, temporal dictionary packing without unit conversion, FixedSizeList(0) length loss, Interval(YearMonth) minimum text, atoi i16 negative wrap")
     .assume("DataType round trip for metadata-free fields (the parser documents field metadata as TODO); names needing escaping (F5) and empty names are excluded by construction and reproduced in datatype_known_shapes")
-    .sub(Sub::new("matrix", 0, 0, survey(sub_matrix)).enumerate(n * n, n * n * 4).require(&["castable:a!=b", "uncastable", "both-sides-of-limit"]))
-    .sub(Sub::new("duality_exhaustive", 0, 0, survey(sub_duality_exhaustive)).enumerate(2 * N_EXH_TARGETS, 5 * N_EXH_TARGETS))
-    .sub(Sub::new("duality", 6000, 150_000, survey(sub_duality)).tape(128, 4000).require(&["int->int", "float->int", "decimal->decimal", "int->decimal", "decimal->int", "float->decimal", "timestamp->timestamp", "date->timestamp", "timestamp->date", "both-sides-of-limit"]))
-    .sub(Sub::new("inverse", 5000, 120_000, survey(sub_inverse)).tape(256, 6000).require(&["int-widen", "int->decimal", "decimal-upscale", "string-reencode", "binary-reencode", "list-reencode", "pack-dict", "pack-ree", "dict-unpack", "ree-unpack", "temporal-finer"]))
-    .sub(Sub::new("text", 5000, 150_000, survey(sub_text)).tape(256, 5000).require(&["type:int", "type:float", "type:decimal", "type:temporal", "type:bool", "extreme-value", "decimal128:max-precision", "decimal256:max-precision"]))
-    .sub(Sub::new("datatype", 6000, 200_000, survey(sub_datatype)).tape(64, 1500).require(&["struct", "union", "map", "generated-field-names", "unicode-name"]))
+    .sub(Sub::new("census", 0, 0, sub_census).enumerate(1, 1))
+    .sub(Sub::new("matrix", 0, 0, sub_matrix).enumerate(n * n * 16, n * n * 250).require(&["castable:a!=b", "uncastable", "both-sides-of-limit"]))
+    .sub(Sub::new("duality_exhaustive", 0, 0, sub_duality_exhaustive).enumerate(2 * N_EXH_TARGETS, 5 * N_EXH_TARGETS))
+    .sub(Sub::new("duality", 250_000, 4_000_000, sub_duality).tape(128, 4000).require(&["int->int", "float->int", "decimal->decimal", "int->decimal", "decimal->int", "float->decimal", "timestamp->timestamp", "date->timestamp", "timestamp->date", "both-sides-of-limit"]))
+    .sub(Sub::new("inverse", 120_000, 2_000_000, sub_inverse).tape(256, 6000).require(&["int-widen", "int->decimal", "decimal-upscale", "string-reencode", "binary-reencode", "list-reencode", "pack-dict", "pack-ree", "dict-unpack", "ree-unpack", "temporal-finer"]))
+    .sub(Sub::new("text", 120_000, 2_000_000, sub_text).tape(256, 5000).require(&["type:int", "type:float", "type:decimal", "type:temporal", "type:bool", "extreme-value", "decimal128:max-precision", "decimal256:max-precision"]))
+    .sub(Sub::new("text_cross", 60_000, 1_000_000, sub_text_cross).tape(256, 5000).require(&["int-text->int", "int-text->decimal", "int-text->float", "decimal-text->decimal", "both-sides-of-limit"]))
+    .sub(Sub::new("datatype", 100_000, 1_500_000, sub_datatype).tape(64, 1500).require(&["struct", "union", "map", "generated-field-names", "unicode-name"]))
     .sub(Sub::new("datatype_known_shapes", 0, 0, sub_datatype_known_shapes).tape(1, 8))
     .sub(Sub::new("cast_known_shapes", 0, 0, sub_cast_known_shapes).tape(1, 8))
     .run()
